@@ -193,6 +193,27 @@ def run_mixed(ctx, byte):
                     want = sorted(v for v in ([big, -huge if target == "int64" else huge] if label == "polynomial(list)" else [big, huge]))
                     if str(p.dtype) != target or vals != want:
                         ctx.fail(case, f"{label} with {other!r} next to int64 {big} / {huge}, dtype={target}: stored {vals} ({p.dtype}), numpy's cast of each entry gives {want}", ["mixed", "requested-dtype", "value"])
+        # joins of three pieces of different types, every order: numpy promotes all pieces at once, which is not the same as
+        # promoting pairwise from the left (seeded change C12-16: reduce(promote_types) gave float32 for int8, uint8, float16)
+        import itertools
+        pool = ["int8", "uint8", "int16", "uint16", "float16", "float32", "complex64", "int64", "float64"]
+        q0 = numpoly.variable(1)
+        for trio in itertools.permutations(pool, 3):
+            xs = [data(d, (2,)) for d in trio]
+            ps = [numpoly.polynomial_from_attributes([[1], [0]], [x, x[::-1].copy()], ("q0",), dtype=d) for x, d in zip(xs, trio)]
+            for fn in ("concatenate", "stack"):
+                ctx.evaluations += 1
+                ctx.count("mixed.three-piece-join")
+                want = getattr(numpy, fn)(xs)
+                case = {"kind": "mixed", "route": fn, "dtypes": list(trio)}
+                try:
+                    r = getattr(numpoly, fn)(ps)
+                except Exception as err:  # noqa: BLE001
+                    ctx.fail(case, f"{fn} of {trio} polynomials raised {type(err).__name__}: {str(err)[:100]}", ["mixed", "join3", "raises"])
+                    continue
+                got = {int(e[0]): c for e, c in zip(r.exponents.tolist(), r.coefficients)}.get(1)
+                if r.dtype != want.dtype or got is None or not exact_equal(got, want.astype(want.dtype)):
+                    ctx.fail(case, f"{fn} of {trio} polynomials has dtype {r.dtype} / q0-coefficients {None if got is None else numpy.asarray(got).tolist()}; numpy.{fn} of the coefficient arrays gives {want.dtype} {want.tolist()}", ["mixed", "join3", "dtype"])
         # dict with Python scalars of different kinds
         for first, second in ((1, 2.5), (2.5, 1), (1, 1 + 2j), (True, 3)):
             ctx.evaluations += 1
